@@ -1,5 +1,6 @@
 import S3V.Thm.DtoRange
 import S3V.Thm.DtoCopySource
+import S3V.Thm.DtoTimestamp
 /-!
 # C14 — timestamps, ranges, copy sources, content types keep their meaning through text
 (property theorems only)
@@ -138,5 +139,102 @@ example : Legal ⟨[98, 117, 99, 107, 101, 116], [97, 63, 98, 32, 37], some [118
   ⟨by decide, by decide, by decide, by intro v h; cases h; decide⟩
 example : Spells [97, 37, 51, 70, 98] [97, 63, 98] :=
   .lit (by decide) (by decide) (.esc (x := 3) (y := 15) (by decide) (by decide) (.lit (by decide) (by decide) .nil))
+
+/-! ## Timestamp
+
+An instant is `(unix, nanos)`: seconds since 1970-01-01T00:00:00Z and nanoseconds; a `Ts` also carries
+the UTC offset (seconds) the value was expressed in. The instants of the years 1 … 9999 are
+`-62135596800 ≤ unix ≤ 253402300799`. -/
+
+/-- the calendar arithmetic: day number → civil date → day number is the identity on all of `Int`,
+    and the civil date is a valid one -/
+theorem C14_civil_days_civil (z : Int) :
+    daysFromCivil (civilFromDays z).1 (civilFromDays z).2.1 (civilFromDays z).2.2 = z ∧
+    1 ≤ (civilFromDays z).2.1 ∧ (civilFromDays z).2.1 ≤ 12 ∧
+    1 ≤ (civilFromDays z).2.2 ∧ (civilFromDays z).2.2 ≤ daysInMonth (civilFromDays z).1 (civilFromDays z).2.1 :=
+  civil_days_civil z
+
+/-- civil date → day number → civil date is the identity for every valid date of every year -/
+theorem C14_days_civil_days (y : Int) (m d : Nat) (hm1 : 1 ≤ m) (hm2 : m ≤ 12) (hd1 : 1 ≤ d)
+    (hd2 : d ≤ daysInMonth y m) : civilFromDays (daysFromCivil y m d) = (y, m, d) :=
+  days_civil_days y m d hm1 hm2 hd1 hd2
+
+/-- the day number the model computes is the proleptic Gregorian one obtained by counting the days
+    of the years and months before the date (`DtoSpec.specDays`), for every year ≥ 1 -/
+theorem C14_days_eq_counting (y m d : Nat) (hy : 1 ≤ y) (hm1 : 1 ≤ m) (hm2 : m ≤ 12) (hd : 1 ≤ d) :
+    daysFromCivil (y : Int) m d = specDays y m d :=
+  daysFromCivil_eq_specDays y m d hy hm1 hm2 hd
+
+/-- *formatting then parsing is the identity up to the format's precision* — DateTime (RFC 3339,
+    milliseconds): for every instant of the years 1 … 9999, whatever offset the timestamp carries,
+    `format` succeeds and `parse` of its output is the same instant truncated to the millisecond
+    (in UTC) -/
+theorem C14_ts_datetime_roundtrip (t : Ts) (h1 : -62135596800 ≤ t.unix) (h2 : t.unix ≤ 253402300799)
+    (hn : t.nanos < 1000000000) :
+    ∃ txt, formatDateTime t = some txt ∧
+      parseRfc3339 txt = some ⟨t.unix, t.nanos / 1000000 * 1000000, 0⟩ :=
+  datetime_roundtrip t h1 h2 hn
+
+/-- the same for HttpDate (the RFC1123 description, seconds precision) -/
+theorem C14_ts_httpdate_roundtrip (t : Ts) (h1 : -62135596800 ≤ t.unix) (h2 : t.unix ≤ 253402300799) :
+    ∃ txt, formatHttpDate t = some txt ∧ parseHttpDate txt = some ⟨t.unix, 0, 0⟩ :=
+  httpdate_roundtrip t h1 h2
+
+/-- *a timestamp keeps its instant whatever UTC offset it was expressed in*, parsing half: an
+    RFC 3339 text `YYYY-MM-DDTHH:MM:SS[.mmm]±hh:mm` with a valid date-time of the years 1 … 9999 and
+    any offset in [−23:59, +23:59] is parsed to the instant local − offset (`rfc3339Instant`, stated
+    with the counting calendar of the specification), the written fraction and that offset -/
+theorem C14_ts_instant_preserved_parse (Y m d H Mi S : Nat) (ms : Option Nat) (neg : Bool) (oh om : Nat)
+    (hdate : validDate Y m d = true) (hH : H ≤ 23) (hMi : Mi ≤ 59) (hS : S ≤ 59)
+    (hms : ∀ x, ms = some x → x < 1000) (hoh : oh ≤ 23) (hom : om ≤ 59) :
+    parseRfc3339 (rfc3339Text Y m d H Mi S ms neg oh om) =
+      some ⟨rfc3339Instant Y m d H Mi S neg oh om, fracNanosOf ms, offsetSeconds neg oh om⟩ :=
+  parse_rfc3339Text Y m d H Mi S ms neg oh om hdate hH hMi hS hms hoh hom
+
+/-- … formatting half: the parsed value is written (DateTime and HttpDate) as a text that parses to
+    the same instant with offset 0, i.e. `format` emits that instant in UTC (provided the instant
+    itself lies in the years 1 … 9999; a local time within a day of either end may not) -/
+theorem C14_ts_instant_preserved (Y m d H Mi S : Nat) (ms : Option Nat) (neg : Bool) (oh om : Nat)
+    (hdate : validDate Y m d = true) (hH : H ≤ 23) (hMi : Mi ≤ 59) (hS : S ≤ 59)
+    (hms : ∀ x, ms = some x → x < 1000) (hoh : oh ≤ 23) (hom : om ≤ 59)
+    (h1 : -62135596800 ≤ rfc3339Instant Y m d H Mi S neg oh om)
+    (h2 : rfc3339Instant Y m d H Mi S neg oh om ≤ 253402300799) :
+    ∃ t, parseRfc3339 (rfc3339Text Y m d H Mi S ms neg oh om) = some t ∧
+      t.unix = rfc3339Instant Y m d H Mi S neg oh om ∧
+      (∃ txt, formatDateTime t = some txt ∧ parseRfc3339 txt = some ⟨t.unix, fracNanosOf ms, 0⟩) ∧
+      (∃ txt, formatHttpDate t = some txt ∧ parseHttpDate txt = some ⟨t.unix, 0, 0⟩) := by
+  refine ⟨_, parse_rfc3339Text Y m d H Mi S ms neg oh om hdate hH hMi hS hms hoh hom, rfl, ?_, ?_⟩
+  · have hn : fracNanosOf ms < 1000000000 := by
+      cases ms with
+      | none => simp [fracNanosOf]
+      | some x => have := hms x rfl; simp only [fracNanosOf]; omega
+    have hr : fracNanosOf ms / 1000000 * 1000000 = fracNanosOf ms := by
+      cases ms with
+      | none => simp [fracNanosOf]
+      | some x => simp only [fracNanosOf]; omega
+    have := datetime_roundtrip ⟨rfc3339Instant Y m d H Mi S neg oh om, fracNanosOf ms, offsetSeconds neg oh om⟩ h1 h2 hn
+    simpa only [hr] using this
+  · exact httpdate_roundtrip ⟨rfc3339Instant Y m d H Mi S neg oh om, fracNanosOf ms, offsetSeconds neg oh om⟩ h1 h2
+
+/-- EpochSeconds, whole seconds: for every instant from 1970 to the end of year 9999 that is a whole
+    number of seconds, `format` writes the decimal integer and `parse` gives the instant back.
+    (An instant with a fraction is written through `f64` arithmetic and `Display`, which the
+    proof-side model does not describe: correspondence only, see the driver's float model. Instants
+    before 1970 are written with a minus sign that `parse` refuses: finding F-dto-4.) -/
+theorem C14_ts_epoch_whole_roundtrip (unix off : Int) (h0 : 0 ≤ unix) (h1 : unix ≤ 253402300799) :
+    ∃ txt, formatEpochWhole ⟨unix, 0, off⟩ = some txt ∧ parseEpochSeconds txt = some ⟨unix, 0, 0⟩ :=
+  epoch_whole_roundtrip unix off h0 h1
+
+/-- EpochSeconds, parsing: decimal seconds with a millisecond fraction are decoded to the value they denote -/
+theorem C14_ts_epoch_parse_ms (secs ms : Nat) (h1 : secs ≤ 253402300799) (h2 : ms < 1000) :
+    parseEpochSeconds (fmtDec secs ++ 46 :: pad3 ms) = some ⟨(secs : Int), ms * 1000000, 0⟩ :=
+  parseEpoch_ms secs ms h1 h2
+
+/-! non-vacuity: 2020-01-01T08:00:00+08:00 is 2020-01-01T00:00:00Z = 1577836800 -/
+example : validDate 2020 1 1 = true := by decide
+example : rfc3339Instant 2020 1 1 8 0 0 false 8 0 = 1577836800 := by decide
+example : rfc3339Text 2020 1 1 8 0 0 none false 8 0 =
+    [50, 48, 50, 48, 45, 48, 49, 45, 48, 49, 84, 48, 56, 58, 48, 48, 58, 48, 48, 43, 48, 56, 58, 48, 48] := by decide
+example : (-62135596800 : Int) ≤ 1577836800 ∧ (1577836800 : Int) ≤ 253402300799 := by decide
 
 end S3V.C14
